@@ -359,6 +359,9 @@ class ImageBatch(DataTensor):
             return data  # cannot be an ImageBatch or Image without a channel dimension
         grid_index = index[0] if is_multi_index else index
         if isinstance(grid_index, (np.ndarray, Sequence, Tensor)):
+            mask = torch.as_tensor(grid_index)
+            if mask.dtype == torch.bool:
+                grid_index = mask.nonzero().flatten().tolist()
             grid = tuple(self._grid[i] for i in grid_index)
         else:
             grid = self._grid[grid_index]
